@@ -1949,6 +1949,21 @@ def run_c16(ctx):
                 a, b = G.to_fieldcompare(A).domain, G.to_fieldcompare(B).domain
                 if rng.random() < 0.3 and PermutedMesh is not None:
                     a = PermutedMesh(a)
+                elif rng.random() < 0.3 and len({t_ for t_, _ in A["blocks"]}) == len(A["blocks"]):
+                    # a held as the view that strip_orphan_points() gives of a mesh with unconnected points stored anywhere among
+                    # the connected ones; its explicit representation (for the statement and the model) is rebuilt from the marker
+                    # field alone, not from the view's connectivity
+                    from fieldcompare.mesh import strip_orphan_points as _strip
+                    U = G.add_orphans(rng, G.copy_mesh(A))
+                    V = _strip(with_markers(U))
+                    pid, _ = markers_of(V)
+                    pos_ = {u: k_ for k_, u in enumerate(pid)}
+                    A = {"dim": A["dim"], "pts": [list(U["pts"][u]) for u in pid], "pf": {}, "cf": {},
+                         "blocks": [[t_, [[pos_[c_] for c_ in r_] for r_ in rows_]] for t_, rows_ in U["blocks"]]}
+                    a = V.domain
+                    canon = {"a": json_mesh(A), "b": json_mesh(B), "kind": kind,
+                             "a_is": "strip_orphan_points view", "a_underlying": json_mesh(strip_markers(U))}
+                    ctx.count("c16:a is a strip_orphan_points view")
                 for name, x, y in (("ab", a, b), ("ba", b, a)):
                     try:
                         res[name] = bool(x.equals(y))
